@@ -570,7 +570,15 @@ class Body:
         if "move" in o:
             return self.place_expr(o["move"], _seen, _depth)
         if "const" in o:
-            return ("const", o["const"])
+            c = o["const"]
+            if "uneval" in c and not any(k in c for k in ("str", "int", "bool", "bytes")):
+                v = self.crate.named_const(c["uneval"])
+                if v:
+                    c = dict(c)
+                    for k in ("str", "int", "bool", "bytes", "mem"):
+                        if k in v:
+                            c[k] = v[k]
+            return ("const", c)
         return ("other", str(o))
 
     def rvalue_expr(self, rv, _seen=None, _depth=0):
@@ -855,6 +863,13 @@ class Crate:
         self.impls = j["impls"]
         self.fns = {f["def"]: f for f in j["fns"]}
         self.consts = {c["def"]: c for c in j["consts"]}
+        self.siblings = [self]
+
+    def named_const(self, def_path):
+        for cr in self.siblings:
+            if def_path in cr.consts:
+                return cr.consts[def_path]
+        return None
 
 
 class Facts:
@@ -863,6 +878,8 @@ class Facts:
         self.lib = Crate(os.path.join(d, "xs-lib.json"), "xs")
         self.bin = Crate(os.path.join(d, "xs-bin.json"), "xsbin")
         self.crates = [self.lib, self.bin]
+        self.lib.siblings = self.crates
+        self.bin.siblings = self.crates
         from . import inline
         self.inlined = inline.apply(self, INLINE_ANCHORS, PINNED_NAMES)
 
